@@ -74,9 +74,14 @@ class RateLimiter(BaseRateLimiter):
     def evaluate_rules(self, rules, timestamps):
         now = self._timestamp()
         if timestamps:
-            if (now - timestamps[0]) > max(rules)[0]:
+            max_interval = max(rules)[0]
+            if (now - timestamps[0]) > max_interval:
                 timestamps.clear()
             else:
+                # newest first: forget admissions older than the longest interval,
+                # they cannot count against any rule any more
+                while (now - timestamps[-1]) > max_interval:
+                    timestamps.pop()
                 for interval, freq in rules:
                     count = 0
                     for ts in timestamps:
